@@ -7,7 +7,7 @@ from ..fold import Folder, Record, EnumMember, Ref, is_unknown, single_return_ex
 from ..absint import Interp, Hooks, State, K, Sym, Obj, Exc, NONE, ListVal, BoundMethod
 from ..report import Check
 from .. import util
-from .common import ForkHooks, labels_of
+from .common import ForkHooks, labels_of, check_zero_is_a_value
 from .C01 import get_model, step_kinds
 
 EXECUTOR_MOD = 'exactly_lib.execution.partial_execution.impl.executor'
@@ -29,6 +29,17 @@ def check(c: Check):
     clause_c(c)
     clause_d(c)
     clause_e(c)
+    # f: an environment from which every variable has been unset is the EMPTY environment - None means "inherit"
+    check_zero_is_a_value(c, 'C11-f', ['exactly_lib.util.process_execution.process_executor',
+                                       'exactly_lib.util.process_execution.execution_elements',
+                                       'exactly_lib.test_case.phases.instruction_settings',
+                                       'exactly_lib.test_case.phases.act.execution_input',
+                                       'exactly_lib.impls.actors.util.atc_proc_exe_settings',
+                                       'exactly_lib.impls.instructions.multi_phase.environ.impl',
+                                       'exactly_lib.execution.partial_execution.impl.executor',
+                                       'exactly_lib.execution.configuration'], 6,
+                          'an environment with no variables is not "inherit the environment of Exactly"',
+                          with_environs=True)
 
 
 # ---------------------------------------------------------------- a
